@@ -285,6 +285,8 @@ FINDINGS = [
          what="Led.blink(nan), RGBLed.blink(.., delay_ms=nan), DCMotor.run_for(nan, 0.5), ramp(0.5, inf) passed the '< 0' test and failed inside time.sleep() after the object had changed", cases=[]),
     dict(id="KF-C12-bom", property="C12", status="fixed", commit="52ccbed",
          what="target() failed with SyntaxError (U+FEFF) for a script saved with a UTF-8 byte-order mark, which CPython itself runs", cases=[]),
+    dict(id="KF-C17-message-on-one-row", property="C17", status="fixed", commit="fa20204",
+         what="lcd.message(top, bottom) on a display with rows=1 wrote the bottom text over the top text (the host skips it)", cases=[]),
     dict(id="KF-C14-lcd-rebind", property="C14", status="open", commit=None,
          what="one name bound first to a parallel LCD and later to an I2C LCD (or the reverse): both libraries are requested, but the emitter keeps only the first display (one header, one object); outside the documented style, like KF-C05-rebind",
          cases=c14_rebind_cases()),
